@@ -4,9 +4,16 @@ Every scenario is a scratch project under /tmp/scratch-c08c09/c09-<id of this ch
 directory, a sequence of file-system mutations (write, overwrite, delete, rename, module<->package,
 add/remove __init__.py, add/remove a stub) and, after every mutation, queries through `import`,
 `from-import`, star import and relative imports, each through a NEW Script.  mtimes are set
-explicitly (os.utime) from a logical clock anchored in the past; pickle files written by jedi are
-re-stamped to the same logical clock after every observation, so that every time comparison parso
-makes is between numbers the harness (and the model) knows.
+explicitly (os.utime(ns=...)) from a logical clock in MILLISECONDS anchored in the past; pickle files
+written by jedi are re-stamped to the same logical clock after every observation, so that every time
+comparison parso makes is between numbers the harness (and the model) knows.
+
+Edit spacing (a dimension of every scenario, `Clock`): 'sec' - 10 s between any two events; 'subsec' -
+1..13 ms between events, the whole history (writes, observations, pickle files, process changes) lies
+within one wall-clock second: strictly increasing stamps at the file system's resolution (ext4 here:
+1 ns, checked in `run`), the same integer second; 'mixed' - 1 ms .. 10 s, some events share a second,
+some do not.  With 'fresh' stamps the property must hold at every spacing (a layer that compares a
+coarser time than the file system's mtime fails exactly here); the adversarial policies keep 'sec'.
 
 Streams
   layers       observer 'same' (one long-lived process) or 'warm' (a new interpreter per step that
@@ -25,6 +32,10 @@ Streams
                from the decorators of that function)
   finder       the helper's importlib FileFinder keeps its directory listing while the directory's
                mtime does not change (known finding)
+  wallclock    no explicit stamps at all: plain open()/write(), the kernel's own time stamps; a module is
+               overwritten right after a Script looked at it (same process / new process on the warm pickle
+               directory), as soon as its mtime reads strictly later (as a float, which is what parso
+               compares) than before and than every pickle file; vs a fresh process with an empty cache
 
 Stub layouts (generator `spk_mutation`, deterministic `layout_scenarios`): the sub-module `pkg.spk` is a
 module `pkg/spk.py`, a package `pkg/spk/__init__.py`, a namespace directory or absent; its stub is the
@@ -34,6 +45,7 @@ and the module is turned into a package (and back) AFTER the package `pkg` was q
 import hashlib
 import json
 import os
+import random
 import shutil
 import sys
 import time
@@ -42,6 +54,7 @@ import common
 from common import short
 
 MODELS = ['DiskCache']
+MODEL_TARGETS = ['JediModel.Model.DiskCache', 'JediModel.Gen.C09', 'JediModel.Drivers.C09']
 LEAN_TARGETS = ['JediModel.Props.C09', 'JediModel.Drivers.C09']
 MANIFEST = dict(
     text='Lean model of the layers between a module file and the tree a Script uses: file system with '
@@ -56,13 +69,22 @@ MANIFEST = dict(
          'parent package, _create_stub_map): the listing consulted is the present file system (stub_listing_fresh, '
          'from "no memo decorator" read by the translator) and the stub served equals what a fresh process serves '
          '(stub_as_fresh_process_partial); witness stale_if_stub_listing_cached. '
+         'WHICH time the layers compare is part of the model (Cfg.stampIsFsMtime / reported): all of the above is '
+         'proved from "every get_last_modified reachable from _load_python_module / parse_stub_module returns '
+         'os.path.getmtime of the file" (stamp_is_fs_mtime, rfl on the translator-read constant); witness '
+         'stale_if_stamp_truncated: a FileIO reporting whole seconds misses a strictly newer rewrite within the second '
+         'the tree was cached / pickled in, although AllOk holds. '
          'Tie: translator (cache=/diff_cache= keywords, ModuleCache per InferenceState, decorators of '
-         '_create_stub_map/_merge_create_stub_map, parso\'s two '
-         'comparisons as installed) + probed layer/version and stub-choice correspondence on generated mutation sequences + '
-         'direct oracle against a brand-new interpreter with an empty cache directory.',
+         '_create_stub_map/_merge_create_stub_map, every get_last_modified of jedi/file_io.py and parso/file_io.py '
+         'classified full-resolution / whole-second / unknown, parso\'s two '
+         'comparisons as installed) + probed layer/version and stub-choice correspondence on generated mutation sequences '
+         'at edit spacings from 1 ms (whole history within one clock second) to 10 s + '
+         'direct oracle against a brand-new interpreter with an empty cache directory, also with the kernel\'s own '
+         'time stamps (stream wallclock).',
     note='Modelled not verified: parso parse/diff parser, pickle round trip, importlib finders in the helper '
          '(parameter `find` = function of the current file system; the FileFinder directory cache is exercised by '
-         'stream `finder`, not modelled), real time-stamp granularity (logical clock via os.utime).',
+         'stream `finder`, not modelled), the file system\'s time-stamp granularity (logical millisecond clock via '
+         'os.utime(ns=); ext4 keeps 1 ns, checked at start).',
     technique='Lean 4 proof over hand-written model + translator-extracted decisions + probed differential '
               'correspondence + fresh-process oracle',
     design='5.C09')
@@ -71,6 +93,8 @@ MANIFEST = dict(
 # remove each other's projects
 SCRATCH = '/tmp/scratch-c08c09/c09-' + hashlib.sha1(common.VERIF.encode()).hexdigest()[:8]
 BASE = 1600000000      # logical clock origin (2020): far below the wall clock
+BASE_MS = BASE * 1000  # the logical clock counts milliseconds; a whole second, so that truncation commutes
+SPACINGS = ('sec', 'subsec', 'mixed')
 
 
 # ======================================================================= project content
@@ -125,7 +149,7 @@ def stub_query(files, dirs):
 
 # ======================================================================= inside observer processes
 
-def _observe(proj, cache_dir, probe=True):
+def _observe(proj, cache_dir, probe=True, labels=None):
     """runs all queries (a new Script each) against the files as they are; returns answers and the
     probed trace of loads of project files"""
     import jedi
@@ -159,6 +183,8 @@ def _observe(proj, cache_dir, probe=True):
     state = getattr(parso.grammar, '_c09_probed', None)
     answers = {}
     for label, rel, src, qs in QUERIES:
+        if labels is not None and label not in labels:
+            continue
         if state:
             state['trace'] = []
         out = []
@@ -187,22 +213,32 @@ def _observe(proj, cache_dir, probe=True):
 
 def observe_once(item):
     """entry point for brand-new interpreters: truth (empty cache dir) and 'warm' observers"""
-    return _observe(item['proj'], item['cache'], probe=item.get('probe', False))
+    return _observe(item['proj'], item['cache'], probe=item.get('probe', False), labels=item.get('labels'))
 
 
 # ----------------------------------------------------------------------- scenario runner
 
 class Clock:
-    def __init__(self):
-        self.now = BASE
+    """logical time in milliseconds.  `spacing` decides how far apart two events are; the draws depend on
+    (spacing, seed) only, so a replay gets the same stamps"""
+    STEPS = {'sec': [10000], 'subsec': [1, 2, 3, 5, 8, 13], 'mixed': [1, 3, 7, 40, 300, 900, 1100, 2500, 10000]}
 
-    def tick(self, dt=10):
+    def __init__(self, spacing='sec', seed=0):
+        self.spacing = spacing
+        self.rng = random.Random('c09-clock-%s-%s' % (spacing, seed))
+        # where in its second the history starts
+        self.offset = 0 if spacing == 'sec' else self.rng.randrange(0, 400)
+        self.now = BASE_MS + self.offset
+
+    def tick(self):
+        dt = self.rng.choice(self.STEPS[self.spacing])
         self.now += dt
-        return self.now
+        return dt
 
 
-def _stamp(path, t):
-    os.utime(path, (t, t))
+def _stamp(path, t_ms):
+    ns = t_ms * 10 ** 6
+    os.utime(path, ns=(ns, ns))
 
 
 def _restamp_pickles(cache_dir, clock, known):
@@ -234,35 +270,42 @@ def apply_op(proj, op, clock, mtimes):
     if kind == 'write':
         rel, ver, policy = op['rel'], op['version'], op.get('policy', 'fresh')
         os.makedirs(os.path.dirname(full(rel)), exist_ok=True)
-        clock.tick()
+        dt = clock.tick()
         if policy == 'fresh' or rel not in mtimes:
             m = clock.now
         elif policy == 'same':
             m = mtimes[rel]
         else:                           # 'between': strictly newer, but older than any pickle written since
             m = mtimes[rel] + 1
-        tmp = full(rel) + '.tmp'
-        with open(tmp, 'w') as f:
-            f.write(content(rel, ver))
-        os.replace(tmp, full(rel))
-        _stamp(full(rel), m)
+        if os.path.exists(full(rel)):
+            # an editor saving in place: the directory is not touched and keeps its (older) mtime - the name
+            # is already in every listing; the only thing that changes besides the bytes is the file's mtime
+            with open(full(rel), 'w') as f:
+                f.write(content(rel, ver))
+            _stamp(full(rel), m)
+        else:
+            tmp = full(rel) + '.tmp'
+            with open(tmp, 'w') as f:
+                f.write(content(rel, ver))
+            os.replace(tmp, full(rel))
+            _stamp(full(rel), m)
+            touch_dir(rel)
         mtimes[rel] = m
-        touch_dir(rel)
-        model.append({'t': 'tick', 'dt': 10})
-        model.append({'t': 'write', 'p': rel, 'b': op['bytes_id'], 'm': m - BASE})
+        model.append({'t': 'tick', 'dt': dt})
+        model.append({'t': 'write', 'p': rel, 'b': op['bytes_id'], 'm': m - BASE_MS})
     elif kind == 'delete':
         rel = op['rel']
-        clock.tick()
+        dt = clock.tick()
         if os.path.exists(full(rel)):
             os.remove(full(rel))
         mtimes.pop(rel, None)
         touch_dir(rel)
-        model.append({'t': 'tick', 'dt': 10})
+        model.append({'t': 'tick', 'dt': dt})
         model.append({'t': 'delete', 'p': rel})
     elif kind == 'rename':
         src, dst, policy = op['src'], op['dst'], op.get('policy', 'fresh')
-        clock.tick()
-        model.append({'t': 'tick', 'dt': 10})
+        dt = clock.tick()
+        model.append({'t': 'tick', 'dt': dt})
         if os.path.exists(full(src)):
             os.makedirs(os.path.dirname(full(dst)), exist_ok=True)
             os.replace(full(src), full(dst))
@@ -273,7 +316,7 @@ def apply_op(proj, op, clock, mtimes):
                 # model: a rename that keeps the stamp, then a rewrite of the same bytes cannot
                 # express "new stamp": use delete + write
                 model.append({'t': 'delete', 'p': src})
-                model.append({'t': 'write', 'p': dst, 'b': op['bytes_id'], 'm': m - BASE})
+                model.append({'t': 'write', 'p': dst, 'b': op['bytes_id'], 'm': m - BASE_MS})
             else:
                 model.append({'t': 'rename', 's': src, 'd': dst})
             mtimes[dst] = m
@@ -281,19 +324,21 @@ def apply_op(proj, op, clock, mtimes):
             touch_dir(dst)
     elif kind == 'rmdir':
         rel = op['rel']
-        clock.tick()
+        dt = clock.tick()
         shutil.rmtree(full(rel), ignore_errors=True)
         for k in [k for k in mtimes if k.startswith(rel + '/')]:
             mtimes.pop(k)
             model.append({'t': 'delete', 'p': k})
         _stamp(os.path.dirname(full(rel)), clock.now)
-        model.insert(0, {'t': 'tick', 'dt': 10})
+        model.insert(0, {'t': 'tick', 'dt': dt})
     return model
 
 
 def run_scenario(item):
-    """one scenario in this process; item = {sid, observer, steps: [[ops...], ...]}"""
+    """one scenario in this process; item = {sid, observer, spacing, clock_seed, steps: [[ops...], ...]}"""
     import subprocess
+    if item.get('kind') == 'wallclock':
+        return wallclock_probe(item)
     root = os.path.join(SCRATCH, item['sid'])
     shutil.rmtree(root, ignore_errors=True)
     proj = os.path.join(root, 'proj')
@@ -302,7 +347,7 @@ def run_scenario(item):
     os.makedirs(cache)
     os.makedirs(os.path.join(proj, 'pkg'))
     os.chdir(proj)
-    clock = Clock()
+    clock = Clock(item.get('spacing', 'sec'), item.get('clock_seed', 0))
     mtimes = {}
     pickles = {}
     out = []
@@ -329,10 +374,11 @@ def run_scenario(item):
 
     for si, ops in enumerate(item['steps']):
         model_ops = []
+        if si == 0 and clock.offset:
+            model_ops.append({'t': 'tick', 'dt': clock.offset})
         for op in ops:
             model_ops += apply_op(proj, op, clock, mtimes)
-        clock.tick()
-        model_ops.append({'t': 'tick', 'dt': 10})
+        model_ops.append({'t': 'tick', 'dt': clock.tick()})
         # ground truth: a brand-new interpreter with an empty cache directory
         empty = os.path.join(root, 'empty-%d' % si)
         os.makedirs(empty)
@@ -357,13 +403,18 @@ def run_scenario(item):
     return {'sid': item['sid'], 'steps': out, 'secs': round(time.time() - t_start, 1)}
 
 
+def same_second(st):
+    """do all file stamps of this step lie within one whole second (where a coarse stamp cannot tell them apart)?"""
+    return len({m // 1000 for m in st['mtimes'].values()}) <= 1
+
+
 # ======================================================================= generation (parent)
 
 MODFILES = ['mod.py', 'pkg/sib.py', 'pkg/sub.py', 'pkg/__init__.py']
 
 
-def gen_scenario(rng, sid, observer, policy):
-    """policy: 'fresh' (MonotoneWrites + newer than every pickle) or an adversarial one"""
+def gen_scenario(rng, sid, observer, policy, spacing='sec'):
+    """policy: 'fresh' (MonotoneWrites + newer than every pickle) or an adversarial one; spacing: see Clock"""
     version = {'n': 0}
     bytes_ids = {}
 
@@ -464,7 +515,8 @@ def gen_scenario(rng, sid, observer, policy):
                 ops.append(o)
         if ops:
             steps.append(ops)
-    return {'sid': sid, 'observer': observer, 'policy': policy, 'steps': steps}
+    return {'sid': sid, 'observer': observer, 'policy': policy, 'spacing': spacing,
+            'clock_seed': rng.randrange(10 ** 6), 'steps': steps}
 
 
 SPK_PKG, SPK_MOD, SPK_SIB, SPK_INIT = 'pkg/spk/__init__.py', 'pkg/spk.py', 'pkg/spk.pyi', 'pkg/spk/__init__.pyi'
@@ -579,9 +631,26 @@ def _loads(trace):
     return out
 
 
-def classify(policy, layer):
+def effective_policy(sc, si):
+    """the adversarial policy of a scenario only counts from the first step that really used it, and
+    'between' (strictly newer than the cached version, older than its pickle file) only for an observer that
+    reads pickles: a process that holds the tree in memory must notice a strictly newer mtime"""
+    used = {op.get('policy') for ops in sc['steps'][:si + 1] for op in ops} - {None, 'fresh'}
+    if sc['observer'] != 'warm':
+        used.discard('between')
+    for pol in (sc['policy'], 'keep', 'same', 'between'):      # generated scenarios mix their policy with 'keep'
+        if pol in used:
+            return pol
+    return 'fresh'
+
+
+def classify(policy, layer, spacing='sec'):
+    """the shape of a stale answer: the adversarial stamp policies are the known findings; with 'fresh' stamps
+    (every change strictly newer, at the file system's resolution, than every stamp any layer holds) there is
+    no excuse, whatever the spacing"""
+    fresh = 'stale' if spacing == 'sec' else 'stale-fresh-stamps-%s-spacing' % spacing
     return {'same': 'stale-same-mtime', 'between': 'stale-older-than-pickle',
-            'keep': 'stale-after-rename'}.get(policy, 'stale') + ('/' + layer if layer else '')
+            'keep': 'stale-after-rename'}.get(policy, fresh) + ('/' + layer if layer else '')
 
 
 def run(ctx):
@@ -596,18 +665,30 @@ def run(ctx):
 def _run(ctx):
     from props.c08 import pmap
     rng = ctx.subrng('scenarios')
-    n = ctx.size(7, 300)
+    n = ctx.size(6, 300)      # + 3 witnesses, 3 layouts, 2 sub-second, corpus, 2 wallclock workers
     scs = []
+    _check_fs_resolution()
     for i in range(n):
         observer = 'warm' if i % 3 == 1 else 'same'
         policy = ['fresh', 'fresh', 'fresh', 'same', 'between', 'keep'][i % 6] if i >= 2 else 'fresh'
-        scs.append(gen_scenario(rng, 's%d-%d' % (ctx.seed, i), observer, policy))
+        # edit spacing: the adversarial policies are defined on the 10 s clock; fresh stamps at every spacing
+        spacing = 'sec' if policy != 'fresh' else SPACINGS[(i + ctx.seed) % 3] if i < 3 else rng.choice(SPACINGS)
+        scs.append(gen_scenario(rng, 's%d-%d' % (ctx.seed, i), observer, policy, spacing))
     # deterministic witnesses of Props/C09 (the known findings print every run)
     scs += witness_scenarios(ctx.seed)
     # stub layouts of the sub-module pkg.spk, stubs added / moved / removed after pkg was queried
     scs += layout_scenarios(ctx.seed)
+    # every kind of imported file overwritten within the second it was cached / pickled in
+    scs += subsecond_scenarios(ctx.seed)
+    # minimised past misses (corpus/C09/*.json: one scenario each)
+    scs += corpus_scenarios()
+    # the kernel's own stamps
+    wall = wallclock_items(ctx.seed)
     t0 = time.time()
-    results = [r[0] for r in pmap('run_scenario', [[s] for s in scs], jobs=14, module='props.c09')]
+    results = [r[0] for r in pmap('run_scenario', [[s] for s in scs + wall], jobs=max(14, len(scs) + len(wall))
+                                  if ctx.quick else 14, module='props.c09')]
+    wall_results = results[len(scs):]
+    results = results[:len(scs)]
     common.log('[c09] scenarios: %.1fs (%s)' % (time.time() - t0, ' '.join(
         '%s:%d steps:%ss' % (r['sid'], len(r['steps']), r.get('secs')) for r in results)))
     reqs, loadlists, curids = [], [], []
@@ -655,9 +736,9 @@ def _run(ctx):
                 cur = st['files'].get(rel)
                 served_current = l['code'] == cur or l['code'] == 'SAME-LINES'
                 ctx.count('layers', (sc['sid'], si, rel, l['label'], idx), nontrivial=l['layer'] != 'parse',
-                          bucket='%s/%s/%s' % (sc['observer'], sc['policy'], l['layer']),
+                          bucket='%s/%s/%s/%s' % (sc['observer'], sc['policy'], sc.get('spacing', 'sec'), l['layer']),
                           sample={'observer': sc['observer'], 'policy': sc['policy'], 'rel': rel, 'layer': l['layer'],
-                                  'served_current': served_current})
+                                  'spacing': sc.get('spacing', 'sec'), 'served_current': served_current})
                 # the model's value is the bytes id of the served version; current id from the last write
                 cur_id = cur_ids[si].get(rel)
                 model_current = m.get('val') == cur_id
@@ -666,35 +747,45 @@ def _run(ctx):
                                    short({'sid': sc['sid'], 'step': si, 'rel': rel, 'query': l['label'],
                                           'real': [l['layer'], served_current],
                                           'model': [m.get('layer'), model_current, m.get('val'), cur_id],
-                                          'observer': sc['observer'], 'policy': sc['policy']}, 900))
+                                          'observer': sc['observer'], 'policy': sc['policy'],
+                                          'spacing': sc.get('spacing', 'sec')}, 900))
                 if not served_current:
                     stale_loads.setdefault(si, []).append((rel, l['layer']))
         # ---- oracle
         for si, st in enumerate(res['steps']):
             for label, _, _, _ in QUERIES:
                 a, b = st['answers'][label], st['truth'][label]
+                spacing = sc.get('spacing', 'sec')
                 ctx.count('oracle', (sc['sid'], si, label), nontrivial=si > 0 and any(a),
-                          bucket='%s/%s/%s' % (sc['observer'], sc['policy'], label),
+                          bucket='%s/%s/%s%s/%s' % (sc['observer'], sc['policy'], spacing,
+                                                    '-one-second' if spacing != 'sec' and same_second(st) else '',
+                                                    label),
                           sample={'label': label, 'answer': a})
                 if a != b:
                     layer = (stale_loads.get(si) or [(None, None)])[0][1]
-                    shape = classify(sc['policy'], None)
+                    shape = classify(effective_policy(sc, si), None, spacing)
                     ctx.fail('oracle', 'a later Script answers differently from a fresh process with an empty cache '
                                        'on the same files (a definition of an earlier state is reported, or a '
                                        'new one is missed)',
-                             {'shape': shape, 'observer': sc['observer'], 'policy': sc['policy'],
-                              'scenario': {'observer': sc['observer'], 'policy': sc['policy'],
+                             {'shape': shape, 'observer': sc['observer'], 'policy': sc['policy'], 'spacing': spacing,
+                              'scenario': {'observer': sc['observer'], 'policy': sc['policy'], 'spacing': spacing,
+                                           'clock_seed': sc.get('clock_seed', 0),
                                            'steps': sc['steps'][:si + 1]}, 'step': si,
+                              'mtimes_ms': {k: v - BASE_MS for k, v in st['mtimes'].items()},
                               'query': label, 'stale_layer': layer},
                              expected=b, observed=a, how='./check C09 --replay <this file>')
+    wallclock_stream(ctx, wall, wall_results)
     finder_stream(ctx)
     ctx.obligations['assumptions'] = [
         '`parse` is a parameter (parso parse == diff parse); the pickle round trip returns the pickled item',
         'the import finder is a function of the current file system (importlib in the helper): exercised by '
         'module<->package / __init__ / stub mutations with a new directory mtime per mutation; with an unchanged '
         'directory mtime it is false (stream finder, known finding)',
-        'time stamps: logical clock through os.utime on files, directories and pickle files; real granularity '
-        'is not modelled',
+        'time stamps: logical clock (milliseconds) through os.utime(ns=) on files, directories and pickle files, at '
+        'spacings from 1 ms to 10 s; the file system keeps them exactly (checked: st_mtime_ns round trip and '
+        'distinct floats 1 ms apart); the kernel\'s own stamps only in stream wallclock',
+        'which time a FileIO reports: every get_last_modified in jedi/file_io.py and parso/file_io.py is recognised '
+        'by the translator (Gen.C09.cfg.stampIsFsMtime); FileIO objects built elsewhere are not looked at',
         'stub lookup: the python module kind of pkg.spk (package > module > namespace directory > absent) and the '
         'os.path arithmetic of the candidates are computed by the harness from the files present; step 1 '
         '(`<name>-stubs` directories) and typeshed (empty in this sandbox) are not modelled; when both '
@@ -742,6 +833,171 @@ def layout_scenarios(seed):
         {'sid': 'l-stubonly-%d' % seed, 'observer': ['same', 'warm'][seed % 2], 'policy': 'fresh', 'steps': c},
     ]
     return out
+
+
+def subsecond_scenarios(seed):
+    """fresh stamps, everything within one second: every kind of file a Script reads through an import - top-level
+    module, sub-modules of a package (relative / dotted), the package's __init__, a sub-module with its sibling
+    stub - is looked at and then overwritten a few milliseconds later (other size / same size: `content` pads by
+    version % 3), in one long-lived process and across processes sharing the pickle directory"""
+    n = {'v': 40}
+    last = {}
+
+    def w(rel, same_size=False):
+        n['v'] += 1
+        while (n['v'] % 3 == last.get(rel, n['v'] + 1) % 3) != same_size:
+            n['v'] += 1                                             # `content` pads by version % 3
+        last[rel] = n['v']
+        return {'op': 'write', 'rel': rel, 'version': n['v'], 'policy': 'fresh', 'bytes_id': n['v']}
+    out = []
+    for observer in ('same', 'warm'):
+        last.clear()
+        base = [w(r) for r in MODFILES] + [w(SPK_MOD), w(SPK_SIB)]
+        steps = [base,
+                 [w('mod.py'), w('pkg/sib.py', True), w(SPK_SIB, True)],        # other size / same size
+                 [w('pkg/sub.py'), w('pkg/__init__.py'), w(SPK_MOD), w('mod.py', True)]]
+        out.append({'sid': 'u-%s-%d' % (observer, seed), 'observer': observer, 'policy': 'fresh',
+                    'spacing': 'subsec', 'clock_seed': seed, 'steps': steps})
+    return out
+
+
+def corpus_scenarios():
+    import glob
+    out = []
+    for pth in sorted(glob.glob(os.path.join(common.VERIF, 'corpus', 'C09', '*.json'))):
+        with open(pth) as f:
+            sc = json.load(f)
+        sc['sid'] = 'corpus-' + os.path.splitext(os.path.basename(pth))[0]
+        out.append(sc)
+    return out
+
+
+def _check_fs_resolution():
+    """the scratch file system must keep millisecond stamps apart (as integers and as the floats parso compares)"""
+    os.makedirs(SCRATCH, exist_ok=True)
+    pth = os.path.join(SCRATCH, 'resolution-probe')
+    with open(pth, 'w') as f:
+        f.write('x')
+    seen = []
+    for t in (BASE_MS + 7, BASE_MS + 8):
+        _stamp(pth, t)
+        st = os.stat(pth)
+        seen.append((st.st_mtime_ns, os.path.getmtime(pth)))
+    os.remove(pth)
+    if seen[0][0] != (BASE_MS + 7) * 10 ** 6 or seen[1][0] != (BASE_MS + 8) * 10 ** 6 or not seen[0][1] < seen[1][1] \
+            or int(seen[0][1]) != int(seen[1][1]):
+        raise common.InfraError('scratch file system does not keep millisecond mtimes: %r' % seen)
+
+
+# ----------------------------------------------------------------------- wallclock stream
+
+WALL_LABELS = ['import', 'from', 'star', 'relative', 'relative-from']
+
+
+def wallclock_items(seed):
+    return [{'kind': 'wallclock', 'sid': 'wall-%s-%d' % (obs, seed), 'observer': obs, 'rounds': 2}
+            for obs in ('same', 'warm')]
+
+
+def _newest_pickle(cache):
+    best = 0.0
+    for root, _, files in os.walk(cache):
+        for f in files:
+            if f.endswith('.pkl'):
+                best = max(best, os.path.getmtime(os.path.join(root, f)))
+    return best
+
+
+def wallclock_probe(item):
+    """no os.utime anywhere: write, look, overwrite as soon as the kernel's stamp reads strictly later than the
+    cached version's and than every pickle file's (as floats - what parso compares), look again"""
+    import subprocess
+    root = os.path.join(SCRATCH, item['sid'])
+    shutil.rmtree(root, ignore_errors=True)
+    proj = os.path.join(root, 'proj')
+    cache = os.path.join(root, 'cache')
+    os.makedirs(os.path.join(proj, 'pkg'))
+    os.makedirs(cache)
+    os.chdir(proj)
+    env = dict(os.environ)
+    env['PYTHONPATH'] = os.pathsep.join([common.REPO, os.path.join(common.VERIF, 'harness'), common.VERIF])
+
+    def spawn(cache_dir, tag):
+        inp = os.path.join(root, 'in-%s.json' % tag)
+        outp = os.path.join(root, 'out-%s.json' % tag)
+        with open(inp, 'w') as f:
+            json.dump([{'proj': proj, 'cache': cache_dir, 'probe': False, 'labels': WALL_LABELS}], f)
+        p = subprocess.run([sys.executable, os.path.join(common.VERIF, 'harness', 'worker.py'),
+                            'props.c09', 'observe_once', inp, outp], env=env, cwd=proj,
+                           stdout=subprocess.DEVNULL, stderr=subprocess.PIPE, text=True, timeout=600)
+        if p.returncode != 0:
+            raise RuntimeError('observer failed: ' + (p.stderr or '')[-1500:])
+        with open(outp) as f:
+            return json.load(f)[0]['answers']
+
+    def look():
+        if item['observer'] == 'same':
+            return _observe(proj, cache, probe=False, labels=WALL_LABELS)['answers']
+        return spawn(cache, 'warm')
+
+    def write(rel, ver):
+        with open(os.path.join(proj, rel), 'w') as f:
+            f.write(content(rel, ver))
+    files = ['mod.py', 'pkg/sib.py', 'pkg/__init__.py']
+    write('pkg/__init__.py', 2)
+    write('pkg/sub.py', 1)
+    if item['observer'] == 'same':
+        look()                                      # starts the helper: later looks take milliseconds
+    rounds = []
+    ver = 10
+    for r in range(item['rounds']):
+        ver += 4
+        while time.time() % 1 > 0.2:                # leave most of a second for look + overwrite
+            time.sleep(0.005)
+        for rel in files:
+            write(rel, ver)
+        first = look()
+        before = {rel: os.path.getmtime(os.path.join(proj, rel)) for rel in files}
+        floor = _newest_pickle(cache)
+        after = {}
+        tries = 0
+        for rel in files:
+            while True:
+                tries += 1
+                write(rel, ver + 1 + (r % 2) * 2)      # round 0: other size, round 1: same size
+                after[rel] = os.path.getmtime(os.path.join(proj, rel))
+                if after[rel] > before[rel] and after[rel] > floor:
+                    break
+                time.sleep(0.001)
+        second = look()
+        empty = os.path.join(root, 'empty-%d' % r)
+        os.makedirs(empty)
+        truth = spawn(empty, 'truth%d' % r)
+        rounds.append({'first': first, 'second': second, 'truth': truth, 'tries': tries,
+                       'gap_ms': {rel: round((after[rel] - before[rel]) * 1000, 3) for rel in files},
+                       'same_second': {rel: int(after[rel]) == int(before[rel]) for rel in files},
+                       'over_pickle_ms': round((min(after.values()) - floor) * 1000, 3) if floor else None})
+    shutil.rmtree(root, ignore_errors=True)
+    return {'sid': item['sid'], 'rounds': rounds}
+
+
+def wallclock_stream(ctx, items, results):
+    for it, res in zip(items, results):
+        for ri, r in enumerate(res['rounds']):
+            one = all(r['same_second'].values())
+            for label in WALL_LABELS:
+                ctx.count('wallclock', (it['sid'], ri, label), nontrivial=any(r['second'][label]),
+                          bucket='%s/%s' % (it['observer'], 'same-second' if one else 'second-crossed'),
+                          sample={'observer': it['observer'], 'round': ri, 'gap_ms': r['gap_ms'],
+                                  'over_pickle_ms': r['over_pickle_ms'], 'tries': r['tries']})
+                if r['second'][label] != r['truth'][label]:
+                    ctx.fail('wallclock', 'a module overwritten right after a Script looked at it (kernel time stamps, '
+                                          'strictly later than the cached version and every pickle file) is answered '
+                                          'from the earlier version',
+                             {'shape': 'stale-wallclock', 'observer': it['observer'], 'query': label, 'round': ri,
+                              'gap_ms': r['gap_ms'], 'same_second': r['same_second'], 'item': it},
+                             expected=r['truth'][label], observed=r['second'][label],
+                             how='./check C09 --replay <this file>  (timing dependent: runs the probe up to 5 times)')
 
 
 # ----------------------------------------------------------------------- finder stream
@@ -797,6 +1053,17 @@ def finder_stream(ctx):
 def replay(ctx, payload):
     from props.c08 import pmap
     inp = payload['input']
+    if inp.get('shape') == 'stale-wallclock':
+        os.makedirs(SCRATCH, exist_ok=True)
+        for attempt in range(5):
+            res = pmap('run_scenario', [[dict(inp['item'], sid='replay-wall')]], jobs=1, module='props.c09')[0][0]
+            for r in res['rounds']:
+                if r['second'][inp['query']] != r['truth'][inp['query']]:
+                    print('query   :', inp['query'], ' gap ms:', r['gap_ms'])
+                    print('observer:', r['second'][inp['query']])
+                    print('fresh   :', r['truth'][inp['query']])
+                    return 1
+        return 0
     if 'scenario' not in inp:
         print(inp)
         return 0
